@@ -1695,3 +1695,291 @@ Example ex_clauses :
   check_ctx 6 ex_history (snap_of 3 10 6 (run ex_history)) = true /\
   sn_notes (snap_of 3 10 6 (step (run ex_history) (ConnClosed (1, 1)))) = [7%Z; 1%Z].
 Proof. repeat split; vm_compute; reflexivity. Qed.
+
+(* --- the handler clauses: the checker's threaded tables against the model's wrapper states --------- *)
+Definition enc (pe : peer) : list Z := [Z.of_N (p_addr pe); p_role pe].
+Record TI (r : reg) (ti : list (sid * bool)) (li : list (sid * list Z)) : Prop := {
+  ti_none : forall s, get s (sw r) = None -> get s ti = None;
+  ti_looked : forall s p pe, get s (sw r) = Some (SwLooked p pe) -> get s ti = None;
+  ti_tracked : forall s p pe f, get s (sw r) = Some (SwTracked p pe f) -> get s ti = Some true;
+  ti_ident : forall s st p pe, get s (sw r) = Some st -> sw_ident st = Some (p, pe) -> get s li = Some (enc pe) }.
+
+Lemma TI_init : TI init [] [].
+Proof. constructor; cbn; intros; try reflexivity; discriminate. Qed.
+
+(* every stream id used by the history is inside the case's universe, and so is the peer of a lookup *)
+Definition sids_bounded (np ns : N) (evs : list event) : Prop :=
+  (forall e s, In e evs -> ev_sid e = Some s -> s < ns) /\ sbounded np ns evs.
+
+(* the two tables as check_from updates them at a fully observed step *)
+Definition ti_next (hist : list event) (prev : snap) (ti : list (sid * bool)) (e : event) :=
+  match e with
+  | STrack s => match get s ti, stream_peer hist s with
+                | None, Some p => if (cell (sn_sw prev) s =? 1)%Z then put s (reg_in prev p) ti else ti
+                | _, _ => ti end
+  | _ => ti
+  end.
+Definition li_next (prev : snap) (li : list (sid * list Z)) (e : event) :=
+  match e with
+  | SLookup s p => if negb false && true && (cell (sn_sw prev) s =? 0)%Z && negb (is_nil (row (sn_over prev) p))
+                   then put s (row (sn_over prev) p) li else li
+  | _ => li
+  end.
+
+Lemma ti_next_own hist prev ti s0 :
+  get s0 (ti_next hist prev ti (STrack s0)) =
+  match get s0 ti with
+  | Some b => Some b
+  | None => match stream_peer hist s0 with
+            | Some p => if (cell (sn_sw prev) s0 =? 1)%Z then Some (reg_in prev p) else None
+            | None => None
+            end
+  end.
+Proof.
+  unfold ti_next. destruct (get s0 ti) eqn:Et; [exact Et|]. destruct (stream_peer hist s0); [|exact Et].
+  destruct (cell (sn_sw prev) s0 =? 1)%Z; [apply get_put_same|exact Et].
+Qed.
+Lemma li_next_own prev li s0 p0 :
+  get s0 (li_next prev li (SLookup s0 p0)) =
+  if (cell (sn_sw prev) s0 =? 0)%Z && negb (is_nil (row (sn_over prev) p0))
+  then Some (row (sn_over prev) p0) else get s0 li.
+Proof.
+  unfold li_next. cbn [negb andb]. destruct ((cell (sn_sw prev) s0 =? 0)%Z && negb (is_nil (row (sn_over prev) p0)));
+    [apply get_put_same|reflexivity].
+Qed.
+
+Lemma TI_step np na ns hist e ti li :
+  wf (hist ++ [e]) -> sids_bounded np ns (hist ++ [e]) ->
+  TI (run hist) ti li ->
+  TI (step (run hist) e) (ti_next hist (snap_of np na ns (run hist)) ti e)
+                         (li_next (snap_of np na ns (run hist)) li e).
+Proof.
+  intros Hwf [Hsid Hsb] HT. set (r := run hist) in *.
+  assert (Hwh : wf hist) by apply (wf_prefix _ _ Hwf). destruct (inv_run hist Hwh) as [HA _]. fold r in HA.
+  assert (Hin : In e (hist ++ [e])) by (apply in_or_app; right; left; reflexivity).
+  assert (Hother : forall s1, ev_sid e <> Some s1 ->
+            get s1 (sw (step r e)) = get s1 (sw r) /\
+            get s1 (ti_next hist (snap_of np na ns r) ti e) = get s1 ti /\
+            get s1 (li_next (snap_of np na ns r) li e) = get s1 li).
+  { intros s1 Hn. split; [apply sw_frame, Hn|]. split.
+    - destruct e; cbn [ti_next]; try reflexivity. cbn [ev_sid] in Hn.
+      destruct (get s ti); [reflexivity|]. destruct (stream_peer hist s); [|reflexivity].
+      destruct (cell (sn_sw (snap_of np na ns r)) s =? 1)%Z; [|reflexivity]. apply get_put_other. congruence.
+    - destruct e; cbn [li_next]; try reflexivity. cbn [ev_sid] in Hn.
+      destruct (_ && _ && _ && _); [|reflexivity]. apply get_put_other. congruence. }
+  destruct HT as [T1 T2 T3 T4].
+  assert (Hown : forall s0, ev_sid e = Some s0 ->
+            (get s0 (sw (step r e)) = None -> get s0 (ti_next hist (snap_of np na ns r) ti e) = None) /\
+            (forall p pe, get s0 (sw (step r e)) = Some (SwLooked p pe) ->
+                          get s0 (ti_next hist (snap_of np na ns r) ti e) = None) /\
+            (forall p pe f, get s0 (sw (step r e)) = Some (SwTracked p pe f) ->
+                            get s0 (ti_next hist (snap_of np na ns r) ti e) = Some true) /\
+            (forall st p pe, get s0 (sw (step r e)) = Some st -> sw_ident st = Some (p, pe) ->
+                             get s0 (li_next (snap_of np na ns r) li e) = Some (enc pe))).
+  { intros s0 Ho. assert (Hs0 : s0 < ns) by (apply (Hsid e s0 Hin Ho)).
+    assert (Hcode : cell (sn_sw (snap_of np na ns r)) s0 = sw_code (get s0 (sw r))) by (apply cell_sw_model, Hs0).
+    destruct (sw_own e s0 Ho) as [[p0 ->] | [-> | [-> | ->]]].
+    - (* SLookup *)
+      assert (Hp0 : p0 < np) by (apply (Hsb s0 p0 Hin)).
+      change (ti_next hist (snap_of np na ns r) ti (SLookup s0 p0)) with ti.
+      rewrite li_next_own, sw_lookup, Hcode, (row_over_model np na ns r p0 Hp0).
+      destruct (get s0 (sw r)) as [st|] eqn:E.
+      + assert (Hnz : (sw_code (Some st) =? 0)%Z = false) by (destruct st; reflexivity). rewrite Hnz. cbn [andb].
+        repeat split.
+        * discriminate.
+        * intros p pe [= ->]. eapply T2, E.
+        * intros p pe f [= ->]. eapply T3, E.
+        * intros st0 p pe [= <-] Hid. eapply T4; eassumption.
+      + change (sw_code None =? 0)%Z with true. cbn [andb].
+        destruct (get p0 (overlays r)) as [pe0|] eqn:Eo; cbn [is_nil negb].
+        * repeat split; try discriminate.
+          -- intros p pe _. apply T1, E.
+          -- intros st0 p pe [= <-] [= <- <-]. reflexivity.
+        * repeat split; try discriminate. intros st0 p pe [= <-]. discriminate.
+    - (* STrack *)
+      change (li_next (snap_of np na ns r) li (STrack s0)) with li.
+      rewrite ti_next_own, sw_track, Hcode. destruct (get s0 (sw r)) as [[q pe0|q pe0 f0|q pe0| |]|] eqn:E.
+      + rewrite (T2 s0 q pe0 E), (sw_stream_peer hist s0 _ q pe0 E eq_refl).
+        change (sw_code (Some (SwLooked q pe0)) =? 1)%Z with true. cbn iota.
+        assert (Hq : q < np).
+        { apply (Hsb s0 q), in_or_app. left. apply (looked_at_in hist s0 q pe0), (sw_looked_at hist s0 _ q pe0 E eq_refl). }
+        rewrite (reg_in_model np na ns r q Hq).
+        destruct (has q (streams r)) eqn:Es; repeat split; try discriminate.
+        * intros p pe f [= <- <- <-]. f_equal. unfold registered. apply has_get. intros Hn.
+          apply (a_so _ _ HA) in Hn. apply has_get in Es. contradiction.
+        * intros st0 p pe [= <-] [= <- <-]. eapply T4; [exact E|reflexivity].
+        * intros st0 p pe [= <-]. discriminate.
+      + rewrite (T3 s0 q pe0 f0 E). repeat split; try discriminate.
+        intros st0 p pe [= <-] Hid. eapply T4; eassumption.
+      + assert (Hg : match get s0 ti with
+                     | Some b => Some b
+                     | None => match stream_peer hist s0 with
+                               | Some p => if (sw_code (Some (SwStarted q pe0)) =? 1)%Z then Some (reg_in (snap_of np na ns r) p) else None
+                               | None => None end
+                     end = get s0 ti) by (destruct (get s0 ti); [reflexivity|]; destruct (stream_peer hist s0); reflexivity).
+        rewrite Hg. repeat split; try discriminate. intros st0 p pe [= <-] Hid. eapply T4; eassumption.
+      + assert (Hg : match get s0 ti with
+                     | Some b => Some b
+                     | None => match stream_peer hist s0 with
+                               | Some p => if (sw_code (Some SwReset) =? 1)%Z then Some (reg_in (snap_of np na ns r) p) else None
+                               | None => None end
+                     end = get s0 ti) by (destruct (get s0 ti); [reflexivity|]; destruct (stream_peer hist s0); reflexivity).
+        rewrite Hg. repeat split; try discriminate. intros st0 p pe [= <-]. discriminate.
+      + assert (Hg : match get s0 ti with
+                     | Some b => Some b
+                     | None => match stream_peer hist s0 with
+                               | Some p => if (sw_code (Some SwEnded) =? 1)%Z then Some (reg_in (snap_of np na ns r) p) else None
+                               | None => None end
+                     end = get s0 ti) by (destruct (get s0 ti); [reflexivity|]; destruct (stream_peer hist s0); reflexivity).
+        rewrite Hg. repeat split; try discriminate. intros st0 p pe [= <-]. discriminate.
+      + rewrite (T1 s0 E). destruct (stream_peer hist s0); repeat split; try discriminate; reflexivity.
+    - (* SStart *)
+      change (ti_next hist (snap_of np na ns r) ti (SStart s0)) with ti.
+      change (li_next (snap_of np na ns r) li (SStart s0)) with li.
+      rewrite sw_start. destruct (get s0 (sw r)) as [[q pe0|q pe0 f0|q pe0| |]|] eqn:E; repeat split; try discriminate.
+      + intros p pe [= -> ->]. eapply T2, E.
+      + intros st0 p pe [= <-] Hid. eapply T4; eassumption.
+      + intros st0 p pe [= <-] [= <- <-]. eapply T4; [exact E|reflexivity].
+      + intros st0 p pe [= <-] Hid. eapply T4; eassumption.
+      + intros st0 p pe [= <-]. discriminate.
+      + intros st0 p pe [= <-]. discriminate.
+      + intros _. apply T1, E.
+    - (* SEnd *)
+      change (ti_next hist (snap_of np na ns r) ti (SEnd s0)) with ti.
+      change (li_next (snap_of np na ns r) li (SEnd s0)) with li.
+      rewrite sw_end. destruct (get s0 (sw r)) as [[q pe0|q pe0 f0|q pe0| |]|] eqn:E; repeat split; try discriminate.
+      + intros p pe [= -> ->]. eapply T2, E.
+      + intros st0 p pe [= <-] Hid. eapply T4; eassumption.
+      + intros st0 p pe [= <-]. discriminate.
+      + intros st0 p pe [= <-]. discriminate.
+      + intros st0 p pe [= <-]. discriminate.
+      + intros st0 p pe [= <-]. discriminate.
+      + intros _. apply T1, E. }
+  constructor.
+  - intros s1 H. destruct (option_eq_dec_sid (ev_sid e) s1) as [Ho|Hn].
+    + apply (proj1 (Hown s1 Ho)), H.
+    + destruct (Hother s1 Hn) as (H1 & H2 & _). rewrite H2. apply T1. rewrite <- H1. exact H.
+  - intros s1 p pe H. destruct (option_eq_dec_sid (ev_sid e) s1) as [Ho|Hn].
+    + eapply (proj1 (proj2 (Hown s1 Ho))), H.
+    + destruct (Hother s1 Hn) as (H1 & H2 & _). rewrite H2. eapply T2. rewrite <- H1. exact H.
+  - intros s1 p pe f H. destruct (option_eq_dec_sid (ev_sid e) s1) as [Ho|Hn].
+    + eapply (proj1 (proj2 (proj2 (Hown s1 Ho)))), H.
+    + destruct (Hother s1 Hn) as (H1 & H2 & _). rewrite H2. eapply T3. rewrite <- H1. exact H.
+  - intros s1 st p pe H Hid. destruct (option_eq_dec_sid (ev_sid e) s1) as [Ho|Hn].
+    + eapply (proj2 (proj2 (proj2 (Hown s1 Ho)))); eassumption.
+    + destruct (Hother s1 Hn) as (H1 & _ & H3). rewrite H3. eapply T4; [rewrite <- H1; exact H|exact Hid].
+Qed.
+
+(* the handler clause (handler-unregistered / handler-identity) as check_from evaluates it at a step *)
+Definition starts_clause (np na ns : N) (hist : list event) (ti : list (sid * bool)) (li : list (sid * list Z))
+  (e : event) : option string :=
+  let prev := snap_of np na ns (run hist) in
+  let sn := snap_of np na ns (step (run hist) e) in
+  match drop_prefix (sn_started prev) (sn_started sn) with
+  | Some fresh => check_starts (hist ++ [e]) (ti_next hist prev ti e) (li_next prev li e) fresh
+  | None => Some "handler-identity"%string
+  end.
+
+Lemma starts_clause_model np na ns hist ti li e :
+  TI (run hist) ti li -> starts_clause np na ns hist ti li e = None.
+Proof.
+  intros [T1 T2 T3 T4]. unfold starts_clause. cbn [sn_started snap_of]. rewrite started_eq, flat_map_app, drop_prefix_app.
+  destruct e as [c pe0 cl|c|s0 p0|s0|s0|s0|p0 s0|bp]; try reflexivity.
+  destruct (get s0 (sw (run hist))) as [[q pe0|q pe0 f0|q pe0| |]|] eqn:E; try reflexivity.
+  cbn [flat_map app check_starts ti_next li_next]. rewrite N2Z.id.
+  rewrite (T3 s0 q pe0 f0 E), (T4 s0 _ q pe0 E eq_refl). unfold enc. rewrite zlist_eqb_refl. reflexivity.
+Qed.
+
+Example ex_starts :
+  starts_clause 3 10 6 [Enrol (1, 0) pe1 false; SLookup 0 1; STrack 0]
+    (ti_next [Enrol (1, 0) pe1 false; SLookup 0 1] (snap_of 3 10 6 (run [Enrol (1, 0) pe1 false; SLookup 0 1])) [] (STrack 0))
+    (li_next (snap_of 3 10 6 (run [Enrol (1, 0) pe1 false])) [] (SLookup 0 1)) (SStart 0) = None /\
+  sn_started (snap_of 3 10 6 (run [Enrol (1, 0) pe1 false; SLookup 0 1; STrack 0; SStart 0])) = [0; 1; 7; 1]%Z.
+Proof. split; vm_compute; reflexivity. Qed.
+
+(* --- one statement: the checker on the model's own observations reports nothing --------------------- *)
+Definition model_step (np na ns : N) (r : reg) (e : event) : ostep :=
+  {| o_ev := e; o_ret := ret_of r e; o_panic := false; o_seen := true; o_pending := 0%Z; o_out := (-1)%Z;
+     o_snap := snap_of np na ns (step r e) |}.
+Fixpoint model_obs (np na ns : N) (r : reg) (evs : list event) : list ostep :=
+  match evs with
+  | [] => []
+  | e :: t => model_step np na ns r e :: model_obs np na ns (step r e) t
+  end.
+
+Lemma bounded_prefix np nc na a b : bounded np nc na (a ++ b) -> bounded np nc na a.
+Proof. intros H c pe Hin. apply H. rewrite enrolments_app. apply in_or_app. left. exact Hin. Qed.
+Lemma sids_bounded_prefix np ns a b : sids_bounded np ns (a ++ b) -> sids_bounded np ns a.
+Proof.
+  intros [H1 H2]. split.
+  - intros e s Hin. apply H1, in_or_app. left. exact Hin.
+  - intros s p Hin. apply H2, in_or_app. left. exact Hin.
+Qed.
+
+Lemma checker_accepts_model_from np nc na ns rest : forall hist ti li,
+  wf (hist ++ rest) -> w3 (hist ++ rest) -> bounded np nc na (hist ++ rest) -> sids_bounded np ns (hist ++ rest) ->
+  TI (run hist) ti li ->
+  check_from np nc na ns hist ti li false (snap_of np na ns (run hist)) (model_obs np na ns (run hist) rest) = None.
+Proof.
+  induction rest as [|e t IH]; intros hist ti li Hwf Hw3 Hb Hsb HT; [reflexivity|].
+  assert (Eapp : hist ++ e :: t = (hist ++ [e]) ++ t) by (rewrite <- app_assoc; reflexivity).
+  rewrite Eapp in Hwf, Hw3, Hb, Hsb.
+  assert (Hwf1 := wf_prefix _ _ Hwf). assert (Hw31 := w3_prefix _ _ Hw3).
+  assert (Hb1 := bounded_prefix _ _ _ _ _ Hb). assert (Hsb1 := sids_bounded_prefix _ _ _ _ Hsb).
+  assert (HT' := TI_step np na ns hist e ti li Hwf1 Hsb1 HT).
+  assert (Hrec := IH (hist ++ [e]) (ti_next hist (snap_of np na ns (run hist)) ti e)
+                    (li_next (snap_of np na ns (run hist)) li e) Hwf Hw3 Hb Hsb).
+  rewrite run_snoc in Hrec. specialize (Hrec HT').
+  assert (F1 : maps_agree np na (snap_of np na ns (step (run hist) e)) = true)
+    by (rewrite <- run_snoc; eapply maps_agree_model; eassumption).
+  assert (F2 : check_registered np nc (hist ++ [e]) (snap_of np na ns (step (run hist) e)) = None)
+    by (rewrite <- run_snoc; apply check_registered_model; assumption).
+  assert (F3 := check_notes_model np nc na ns hist e Hwf1 Hb1).
+  assert (F4 := starts_clause_model np na ns hist ti li e HT).
+  assert (F5 : check_ctx ns (hist ++ [e]) (snap_of np na ns (step (run hist) e)) = true)
+    by (rewrite <- run_snoc; apply check_ctx_model; [exact Hwf1|apply Hsb1]).
+  unfold starts_clause in F4. cbn zeta in F4.
+  cbn [check_from model_obs model_step o_ev o_ret o_panic o_seen o_pending o_out o_snap].
+  destruct (wfb (hist ++ [e])); [|reflexivity].
+  change (ti_next hist (snap_of np na ns (run hist)) ti e) with
+    (match e with
+     | STrack s => match get s ti, stream_peer hist s with
+                   | None, Some p => if (cell (sn_sw (snap_of np na ns (run hist))) s =? 1)%Z
+                                     then put s (reg_in (snap_of np na ns (run hist)) p) ti else ti
+                   | _, _ => ti end
+     | _ => ti end) in F4, Hrec.
+  change (li_next (snap_of np na ns (run hist)) li e) with
+    (match e with
+     | SLookup s p => if negb false && true && (cell (sn_sw (snap_of np na ns (run hist))) s =? 0)%Z
+                         && negb (is_nil (row (sn_over (snap_of np na ns (run hist))) p))
+                      then put s (row (sn_over (snap_of np na ns (run hist))) p) li else li
+     | _ => li end) in F4, Hrec.
+  rewrite Hrec, F4. cbn [negb]. rewrite F1, F2, F3, F5. cbn [guard first_some negb Z.eqb].
+  destruct e as [c pe cl|c|s0 p0|s0|s0|s0|p0 s0|bp]; try reflexivity.
+  - (* Enrol: what addPeer answered *)
+    assert (Hc : remote c < np).
+    { apply (Hb1 c pe). rewrite enrolments_app. apply in_or_app. right. left. reflexivity. }
+    pose proof (enrol_clause_model np na ns hist c pe cl Hwf1 Hc) as F6. unfold enrol_clause in F6. cbn zeta in F6.
+    change (0 <=? -1)%Z with false. cbn iota.
+    destruct (ret_of (run hist) (Enrol c pe cl) =? 0)%Z; rewrite F6; reflexivity.
+  - (* SLookup: the reset of a stream from an unregistered peer *)
+    assert (Hin : In (SLookup s0 p0) (hist ++ [SLookup s0 p0])) by (apply in_or_app; right; left; reflexivity).
+    assert (Hs : s0 < ns) by (apply (proj1 Hsb1 _ s0 Hin eq_refl)).
+    assert (Hp : p0 < np) by (apply (proj2 Hsb1 s0 p0 Hin)).
+    pose proof (reset_clause_model np na ns (run hist) s0 p0 Hs Hp) as F7.
+    destruct ((cell (sn_sw (snap_of np na ns (run hist))) s0 =? 0)%Z && negb (reg_in (snap_of np na ns (run hist)) p0));
+      [rewrite F7|]; reflexivity.
+Qed.
+
+Theorem checker_accepts_model np nc na ns evs :
+  wf evs -> w3 evs -> bounded np nc na evs -> sids_bounded np ns evs ->
+  violation {| id := 0; c_np := np; c_nc := nc; c_na := na; c_ns := ns; c_evs := model_obs np na ns init evs |} = None.
+Proof.
+  intros Hwf Hw3 Hb Hsb. unfold violation, empty_snap. cbn [c_np c_nc c_na c_ns c_evs].
+  exact (checker_accepts_model_from np nc na ns evs [] [] [] Hwf Hw3 Hb Hsb TI_init).
+Qed.
+
+Example ex_checker_accepts_model :
+  violation {| id := 0; c_np := 3; c_nc := 3; c_na := 10; c_ns := 6;
+               c_evs := model_obs 3 10 6 init (ex_history ++ [ConnClosed (1, 1)]) |} = None.
+Proof. vm_compute. reflexivity. Qed.
